@@ -67,3 +67,110 @@ package db
 //@ func (*DB) RequestWithContext
 //@   safe
 //@   requires [recv] db != nil && db.rwDB != nil
+//
+// ---- C13: transactional requests are all-or-nothing; results match statements --------------------
+// executeWithConn: with Transaction the transaction is begun before any statement and every
+// statement goes through it; the first failing statement inside it rolls it back, stops the
+// loop and nothing is committed; without a transaction a failing statement issues ROLLBACK and
+// stops iff RollbackOnError, and otherwise the loop goes on. Commit is called iff the transaction
+// is still open at the end and its error is returned. Every non-empty statement that was executed
+// contributes exactly one result, in order, and it is the response produced for that statement.
+//@ spec import lib/dbsql
+// A request message is not modified while it is being executed: its fields are assigned only by
+// the functions that build it (checked syntactically over the loaded packages, #stable[...]).
+//@ type rq/command/proto.Request
+//@   stable Transaction, RollbackOnError, Statements, DbTimeout
+//@   stable_set_in RequestStringStmts, RequestStringStmtsWithTimeout
+//@ type rq/command/proto.Statement
+//@   stable Sql, Parameters, ForceQuery, SqlExplain
+//@   stable_set_in none
+//@ func (*DB) executeWithConn
+//@   requires [recv] db != nil && req != nil && conn != nil
+//@   ghost var began bool = false
+//@   ghost var active bool = false
+//@   ghost var txFailed bool = false
+//@   ghost var stop bool = false
+//@   ghost var committed bool = false
+//@   ghost var commitErr error = nil
+//@   ghost var nExec int = 0
+//@   ghost var lastErr error = nil
+//@   ghost var lastRes int = 0
+//@   ghost var rbIssued bool = false
+//@   ghost var anyFail bool = false
+//@   ghost var R map[int]int
+//@   assert @conn.BeginTx: [begin-first] req.Transaction && nExec == 0
+//@   ghost update @conn.BeginTx: began = (result1 == nil)
+//@   ghost update @conn.BeginTx: active = (result1 == nil)
+//@   assert @db.executeStmtWithConn#2: [no-statement-after-stop] !stop
+//@   assert @db.executeStmtWithConn#2: [through-tx] req.Transaction ==> (active && tx != nil)
+//@   assert @db.executeStmtWithConn#2: [own-statement] arg1 == stmt && stmt.Sql != ""
+//@   ghost update @db.executeStmtWithConn#2: lastErr = result1
+//@   ghost update @db.executeStmtWithConn#2: lastRes = result0
+//@   ghost update @db.executeStmtWithConn#2: R = update(R, nExec, result0)
+//@   ghost update @db.executeStmtWithConn#2: nExec = nExec + 1
+//@   ghost update @db.executeStmtWithConn#2: anyFail = anyFail || (result1 != nil)
+//@   ghost update @db.executeStmtWithConn#2: stop = (result1 != nil && (active || req.RollbackOnError))
+//@   ghost update @db.executeStmtWithConn#2: txFailed = txFailed || (result1 != nil && active)
+//@   assert @tx.Rollback#2: [rollback-only-on-failure] active && lastErr != nil
+//@   ghost update @tx.Rollback#2: active = false
+//@   assert @db.executeStmtWithConn#1: [rollback-stmt] !began && req.RollbackOnError && lastErr != nil && arg1.Sql == "ROLLBACK"
+//@   ghost update @db.executeStmtWithConn#1: rbIssued = true
+//@   assert @tx.Commit: [commit-only-if-open] active && !txFailed
+//@   ghost update @tx.Commit: committed = true
+//@   ghost update @tx.Commit: commitErr = result
+//@   ghost update @tx.Commit: active = false
+//@   loop 1 invariant [one-result-each] len(allResults) == nExec && (forall j int :: (0 <= j && j < nExec) ==> allResults[j] == R[j])
+//@   loop 1 invariant [tx-state] (req.Transaction ==> began) && (active ==> (began && !txFailed && tx != nil)) && (tx != nil ==> active) && !stop && !committed && !rbIssued && (anyFail ==> (!began && !req.RollbackOnError))
+//@   ensures [commit-iff-open] committed == (began && !txFailed)
+//@   ensures [commit-error-returned] committed ==> result1 == commitErr
+//@   ensures [failed-tx-rolled-back] txFailed ==> !active
+//@   ensures [rollback-on-error] (!req.Transaction && req.RollbackOnError && anyFail) ==> rbIssued
+//@   ensures [one-result-each] len(result0) == nExec && (forall j int :: (0 <= j && j < nExec) ==> result0[j] == R[j])
+//
+// RequestWithContext (unified path): as executeWithConn; in addition every non-empty statement is
+// classified on the same connection and produces exactly one result (classification error,
+// query rows, or execute result, each for that statement); any failure while a transaction is
+// open rolls it back and stops the loop, so nothing is committed after a failed statement.
+//@ func (*DB) RequestWithContext
+//@   ghost var began bool = false
+//@   ghost var active bool = false
+//@   ghost var txFailed bool = false
+//@   ghost var stop bool = false
+//@   ghost var committed bool = false
+//@   ghost var commitErr error = nil
+//@   ghost var nVisit int = 0
+//@   ghost var lastErr error = nil
+//@   ghost var rowsV int = 0
+//@   ghost var R map[int]int
+//@   assert @conn.BeginTx: [begin-first] req.Transaction && nVisit == 0
+//@   ghost update @conn.BeginTx: began = (result1 == nil)
+//@   ghost update @conn.BeginTx: active = (result1 == nil)
+//@   assert @db.StmtReadOnlyWithConn: [no-statement-after-stop] !stop && !txFailed
+//@   assert @db.StmtReadOnlyWithConn: [own-statement] arg0 == stmt.Sql && stmt.Sql != "" && arg1 == conn
+//@   ghost update @db.StmtReadOnlyWithConn: nVisit = nVisit + 1
+//@   ghost update @db.StmtReadOnlyWithConn: lastErr = result1
+//@   ghost update @db.StmtReadOnlyWithConn: txFailed = txFailed || (result1 != nil && active)
+//@   assert @db.queryStmtWithConn: [query-own-statement] arg1 == stmt && (req.Transaction ==> (active && arg3 == tx)) && (!req.Transaction ==> arg3 == conn)
+//@   ghost update @db.queryStmtWithConn: lastErr = result1
+//@   ghost update @db.queryStmtWithConn: rowsV = result0
+//@   ghost update @db.queryStmtWithConn: txFailed = txFailed || (result1 != nil && active)
+//@   assert @createEQQueryResponse: [rows-of-statement] arg0 == rowsV && arg1 == lastErr
+//@   ghost update @createEQQueryResponse: R = update(R, nVisit - 1, result)
+//@   assert @db.executeStmtWithConn: [exec-own-statement] arg1 == stmt && (req.Transaction ==> (active && arg3 == tx)) && (!req.Transaction ==> arg3 == conn)
+//@   ghost update @db.executeStmtWithConn: lastErr = result1
+//@   ghost update @db.executeStmtWithConn: R = update(R, nVisit - 1, result0)
+//@   ghost update @db.executeStmtWithConn: txFailed = txFailed || (result1 != nil && active)
+//@   assert @tx.Rollback#2: [rollback-only-on-failure] active && lastErr != nil
+//@   ghost update @tx.Rollback#2: active = false
+//@   ghost update @tx.Rollback#2: stop = true
+//@   assert @tx.Commit: [commit-only-if-open] active && !txFailed
+//@   ghost update @tx.Commit: committed = true
+//@   ghost update @tx.Commit: commitErr = result
+//@   ghost update @tx.Commit: active = false
+//@   loop 1 invariant [one-result-each] len(eqResponse) == nVisit
+//@   loop 1 invariant [tx-state] (req.Transaction ==> began) && (active ==> (began && tx != nil)) && (tx != nil ==> active) && (began ==> req.Transaction) && !stop && !committed && (active ==> eq == tx) && (!req.Transaction ==> eq == conn)
+//@   loop 1 invariant [no-failure-survives] !txFailed
+//@   ensures [commit-iff-open] committed == (began && !txFailed)
+//@   ensures [commit-error-returned] committed ==> result1 == commitErr
+//@   ensures [failed-tx-rolled-back] txFailed ==> !active
+//@   ensures [one-result-each] (began || !req.Transaction) ==> len(result0) == nVisit
